@@ -49,6 +49,9 @@ Init == /\ seq = [l \in Lists |-> <<>>]
 
 Tick == ops' = ops
 KillIter(l) == IF itl = l THEN itl' = 0 /\ itp' = Nil ELSE UNCHANGED <<itl, itp>>
+(* A live iterator is a pointer to a link: the head link, or the next field of its predecessor node itp.  It survives every
+   list-level operation except the removal of that predecessor (its link then belongs to a node outside the list). *)
+KeepIterUnless(l, gone) == IF itl = l /\ itp # Nil /\ itp = gone THEN itl' = 0 /\ itp' = Nil ELSE UNCHANGED <<itl, itp>>
 
 (* ---- list_insert: append at the tail ---- *)
 Insert(l, n) ==
@@ -58,7 +61,7 @@ Insert(l, n) ==
        THEN next' = [next EXCEPT ![tail[l]] = n] /\ head' = head
        ELSE head' = [head EXCEPT ![l] = n] /\ next' = next
   /\ tail' = [tail EXCEPT ![l] = n]
-  /\ ret' = 0 /\ KillIter(l) /\ Tick
+  /\ ret' = 0 /\ UNCHANGED <<itl, itp>> /\ Tick
 
 (* ---- list_push: insert at the head ---- *)
 Push(l, n) ==
@@ -68,7 +71,7 @@ Push(l, n) ==
        THEN next' = [next EXCEPT ![n] = head[l]] /\ tail' = tail
        ELSE tail' = [tail EXCEPT ![l] = n] /\ next' = next
   /\ head' = [head EXCEPT ![l] = n]
-  /\ ret' = 0 /\ KillIter(l) /\ Tick
+  /\ ret' = 0 /\ UNCHANGED <<itl, itp>> /\ Tick
 
 (* ---- list_insert_sorted with comparator Key[a] - Key[b] ---- *)
 SortedPos(s, n) ==   \* index before which n goes: first element with larger key
@@ -89,7 +92,7 @@ InsertSorted(l, n) ==
         /\ IF i = 1 THEN head' = [head EXCEPT ![l] = n] /\ next' = [next EXCEPT ![n] = s[1]]
                     ELSE head' = head /\ next' = [next EXCEPT ![s[i-1]] = n, ![n] = s[i]]
         /\ tail' = tail
-  /\ ret' = 0 /\ KillIter(l) /\ Tick
+  /\ ret' = 0 /\ UNCHANGED <<itl, itp>> /\ Tick
 
 (* ---- list_extract: pop the head; the tail is NOT touched (stale when the list empties) ---- *)
 Extract(l) ==
@@ -100,7 +103,7 @@ Extract(l) ==
             /\ next' = [next EXCEPT ![head[l]] = Nil]
             /\ seq' = [seq EXCEPT ![l] = Tail(@)]
   /\ tail' = tail
-  /\ KillIter(l) /\ Tick
+  /\ KeepIterUnless(l, head[l]) /\ Tick
 
 (* ---- iterator primitives on the pointer image ---- *)
 LinkVal(l, p) == IF p = Nil THEN head[l] ELSE next[p]         \* *(prevnext)
@@ -137,7 +140,7 @@ Remove(l, n) ==
             /\ seq' = [seq EXCEPT ![l] = RemoveAt(@, i)]
             /\ PtrRemove(l, p)
        ELSE ret' = 0 /\ UNCHANGED <<seq, head, tail, next>>
-  /\ KillIter(l) /\ Tick
+  /\ KeepIterUnless(l, IF n \in Range(seq[l]) THEN n ELSE Nil) /\ Tick
 
 (* ---- list_iterate ---- *)
 Iterate(l) ==
